@@ -148,6 +148,9 @@ def run(ctx: core.Ctx):
                         if db is None and not cur and depth != 2:
                             continue      # neither FROM nor a current database: the property does not say
                         qs += [("columns", (t, db), None), ("columns", (t, db), "a%"), ("columns", (t, db), "%d")]
+                        if db is not None:
+                            # the table named with its database - whatever the current database is
+                            qs += [("describe-qualified", (t, db), None), ("desc-qualified", (t, db), None), ("columns-qualified", (t, db), None)]
                     if cur or depth == 2:
                         qs.append(("describe", t, None))
                 for q in qs:
@@ -158,7 +161,7 @@ def run(ctx: core.Ctx):
                         qterms.append(f"show_databases (allc {cm}) {po}")
                     elif kind == "tables":
                         qterms.append(f"show_tables (allc {cm}) {T(arg if arg is not None else cur)} {po}")
-                    elif kind == "columns":
+                    elif kind in ("columns", "describe-qualified", "desc-qualified", "columns-qualified"):
                         t, db = arg
                         d = db if db is not None else cur
                         dd = "None" if d is None else f"(Some {T(d)})"
@@ -182,6 +185,10 @@ def run(ctx: core.Ctx):
             elif kind == "columns":
                 t, db = arg
                 sql = f"SHOW COLUMNS FROM `{t}`{' FROM ' + db if db else ''}{like}"
+                want = [(dec(n), dec(ty)) for n, ty in mres]
+            elif kind in ("describe-qualified", "desc-qualified", "columns-qualified"):
+                t, db = arg
+                sql = {"describe-qualified": "DESCRIBE", "desc-qualified": "DESC", "columns-qualified": "SHOW COLUMNS FROM"}[kind] + f" `{db}`.`{t}`"
                 want = [(dec(n), dec(ty)) for n, ty in mres]
             else:
                 sql = f"DESCRIBE `{arg}`"
